@@ -10,6 +10,7 @@ URIsQuick   == {"plain", "query", "escape"}
 URIsAll     == {"plain", "query", "escape", "emptyq", "dslash", "unicode", "long"}
 ShapesO     == {"dns", "port", "ipv4", "ipv6"} \cup InvalidOrigins
 ShapesD     == {"dns", "port", "ipv4", "ipv6", "invalid"}
+SpellingsAll == {"lower", "mixed"}
 BodiesAll   == {"none", "obj", "arr", "nonutf8"}
 StylesAll   == {"canon", "reorder", "spaces", "bare", "empties"}
 KeyValsAll  == {"valid", "validfar", "lapsed", "expired", "unknown", "wrongkey"}
@@ -18,7 +19,7 @@ DestOwnsAll == {"P", "S", "F"}
 
 
 Emit_ == Done =>
-    PrintT(ToJson([m |-> req.m, u |-> req.u, os |-> req.os, ds |-> req.ds, down |-> req.down, body |-> req.body,
+    PrintT(ToJson([m |-> req.m, u |-> req.u, os |-> req.os, osp |-> req.osp, ds |-> req.ds, dsp |-> req.dsp, down |-> req.down, body |-> req.body,
                    style |-> wire.style, cfg |-> rcv.cfg, kv |-> rcv.kv,
                    tampers |-> applied,
                    accept |-> out.accept,
